@@ -43,6 +43,7 @@ type hold struct {
 }
 
 type env struct {
+	ka   *e2e.Client // the case's persistent keep-alive client connection (op 7)
 	srv  *e2e.Server
 	dir  string
 	mu   sync.Mutex
@@ -325,7 +326,7 @@ func legal(ops hv.L) bool {
 	act := map[int]bool{}
 	for _, ov := range ops {
 		op, ok := ov.(hv.L)
-		if !ok || len(op) < 2 {
+		if !ok || len(op) < 1 {
 			return false
 		}
 		for _, x := range op {
@@ -366,6 +367,10 @@ func legal(ops hv.L) bool {
 			} else {
 				return false
 			}
+		case 7:
+			if len(op) != 1 {
+				return false
+			}
 		case 5:
 			if len(op) != 6 || !in(0, 1000000, a(1)) || !in(1, 6, a(2)) || !in(0, 3, a(3)) || !in(1, NV, a(4)) || !in(1, NG, a(5)) {
 				return false
@@ -384,22 +389,24 @@ func (e *env) burst(tag string, seed, nreq, nrel, vf, gf int) bool {
 	var okMu sync.Mutex
 	fail := func() { okMu.Lock(); okAll = false; okMu.Unlock() }
 	if nrel > 0 {
-		rg.Add(2)
-		go func() { // server data reloads, cycling through the versions, at least nrel of them
-			defer rg.Done()
-			for k := 0; ; k++ {
-				if k >= nrel {
-					select {
-					case <-stop:
-						return
-					default:
+		rg.Add(3)
+		for w := 0; w < 2; w++ { // two concurrent server-data reloaders cycling through the versions, at least nrel reloads each
+			go func(w int) {
+				defer rg.Done()
+				for k := 0; ; k++ {
+					if k >= nrel {
+						select {
+						case <-stop:
+							return
+						default:
+						}
+					}
+					if err := e.reload(1+(seed+k+w)%NV, false); err != nil {
+						fail()
 					}
 				}
-				if err := e.reload(1+(seed+k)%NV, false); err != nil {
-					fail()
-				}
-			}
-		}()
+			}(w)
+		}
 		go func() {
 			defer rg.Done()
 			for k := 0; ; k++ {
@@ -460,6 +467,10 @@ func impl(in hv.Val) hv.Val {
 	e.recs = map[string]*rec{}
 	e.hold = map[string]*hold{}
 	e.mu.Unlock()
+	if e.ka != nil {
+		e.ka.Close()
+		e.ka = nil
+	}
 	// every case starts from version 1 / generation 1
 	if e.reload(1, false) != nil || e.gslb(1) != nil {
 		return hv.Err(2)
@@ -520,6 +531,18 @@ func impl(in hv.Val) hv.Val {
 				acts[rid] = nil
 			}
 			obs = append(obs, v)
+		case 7:
+			id := fmt.Sprintf("k%d.%d", caseNo, k)
+			if e.ka == nil {
+				e.ka = e.srv.Dial()
+			}
+			res := result{}
+			if e.ka.Send([]byte("GET /c15 HTTP/1.1\r\nHost: example.org\r\nX-Verif-Id: "+id+"\r\n\r\n")) == nil {
+				if r, err := e.ka.ReadResponse(); err == nil {
+					res = result{r.Status, string(r.Body)}
+				}
+			}
+			obs = append(obs, e.view(id, &res))
 		case 5:
 			ok := e.burst(fmt.Sprintf("b%d.%d", caseNo, k), a(1), a(2), a(3), a(4), a(5))
 			obs = append(obs, hv.L{hv.Bool(ok)})
@@ -538,14 +561,14 @@ func gen(r *hv.Rng, i int, tier string) (string, hv.Val) {
 			hv.L{hv.L{hv.I(3), hv.I(0), hv.I(2)}, hv.L{hv.I(3), hv.I(0), hv.I(1)}}, // start an active rid
 			hv.L{hv.L{hv.I(3), hv.I(0), hv.I(3)}, hv.L{hv.I(4), hv.I(0), hv.I(2)}}, // hold points must increase
 			hv.L{hv.L{hv.I(1), hv.I(4)}},                                           // unknown version
-			hv.L{hv.L{hv.I(9)}}, hv.I(3), hv.L{hv.L{hv.I(2), hv.I(3)}},
+			hv.L{hv.L{hv.I(9)}}, hv.I(3), hv.L{hv.L{hv.I(2), hv.I(3)}}, hv.L{hv.L{hv.I(7), hv.I(1)}}, hv.L{hv.L{}},
 		}
 		return "triv-malformed", bad[r.Intn(len(bad))]
 	}
 	var ops hv.L
 	hp := map[int]int{}
 	n := r.Range(2, 10)
-	reloadsWhileHeld, hasBurst, badReload := 0, false, false
+	reloadsWhileHeld, hasBurst, badReload, keep := 0, false, false, 0
 	for k := 0; k < n; k++ {
 		var held, free []int
 		for rid := 0; rid < 3; rid++ {
@@ -567,8 +590,11 @@ func gen(r *hv.Rng, i int, tier string) (string, hv.Val) {
 			if len(held) > 0 {
 				reloadsWhileHeld++
 			}
-		case c < 38:
+		case c < 36:
 			ops = append(ops, hv.L{hv.I(2), hv.I(r.Range(1, NG))})
+		case c < 44:
+			ops = append(ops, hv.L{hv.I(7)})
+			keep++
 		case c < 65 && len(free) > 0:
 			rid := free[r.Intn(len(free))]
 			h := []int{0, 1, 1, 2, 2, 3, 4}[r.Intn(7)]
@@ -607,11 +633,14 @@ func gen(r *hv.Rng, i int, tier string) (string, hv.Val) {
 	if hasBurst {
 		class += "-burst"
 	}
+	if keep > 1 {
+		class += "-keepalive"
+	}
 	return class, ops
 }
 
 func main() {
-	hv.Main(&hv.Spec{Prop: "C15", Gen: gen, Impl: impl, NQuick: 700, NThorough: 30000})
+	hv.Main(&hv.Spec{Prop: "C15", Gen: gen, Impl: impl, NQuick: 700, NThorough: 20000})
 	if E != nil {
 		E.srv.Close()
 	}
